@@ -34,6 +34,7 @@ type ObsRec struct {
 }
 
 type Failure struct {
+	SchedOrder []string          `json:"sched_order,omitempty"` // order in which the harness' scheduling points were passed
 	Kind    string            `json:"kind"` // assert | panic | fatal | deadlock | truncated
 	Label   string            `json:"label"`
 	Tags    []string          `json:"tags"`
@@ -108,6 +109,7 @@ type Engine struct {
 	schedDec int // number of scheduling decisions on this path
 	faultAt  map[string]int
 	osLog    []osCall
+	schedTrace []string
 
 	// scheduler
 	gors         []*gor
